@@ -176,7 +176,25 @@ CONTRACTS = {
 
  # text formatting helpers: modelled as pure functions of their arguments (their exact layout is covered by the bounded runs only)
  M + '_get_profile_string': dict(pure_text=True),
- M + '_get_detailed_student_info': dict(pure_text=True),
+ # C11 long format: one line per student, in student order: the student's matched pair (student, project, lecturer numbers) or "no assignment"
+ M + '_get_detailed_student_info': dict(
+    params=PA, requires=PRE, locals={'st_lines': ('list', 'strline')}, symbolic_repeat=True,
+    defs={'A': ([], "tpl('s_{}: p_{} (l_{}) \\n')"), 'B': ([], "tpl('s_{} no assignment\\n')"),
+          'shows': (['x', 'q'], 'line_tpl(x) == A() and line_arg(x, 0) == pair_assignments[q].studentID and line_arg(x, 1) == pair_assignments[q].projectID'
+                                ' and line_arg(x, 2) == pair_assignments[q].lecturerID'),
+          # after the first `upto` pairs: empty iff no pair of student i so far, else the line of the LAST such pair
+          'is_empty': (['x'], 'line_tpl(x) == 0 and line_arg(x, 0) == 0 and line_arg(x, 1) == 0 and line_arg(x, 2) == 0'),
+          'line_ok': (['x', 'i', 'upto'], '(is_empty(x) and forall(q, 0, upto, pair_assignments[q].student_index != i)) or '
+                      'exists(q, 0, upto, pair_assignments[q].student_index == i and shows(x, q) and forall(q2, q + 1, upto, pair_assignments[q2].student_index != i))'),
+          'final_ok': (['x', 'i'], '(line_tpl(x) == B() and line_arg(x, 0) == i + 1 and forall(q, 0, len(pair_assignments), pair_assignments[q].student_index != i)) or '
+                       'exists(q, 0, len(pair_assignments), pair_assignments[q].student_index == i and shows(x, q)'
+                       ' and forall(q2, q + 1, len(pair_assignments), pair_assignments[q2].student_index != i))')},
+    loops={0: dict(invariant=['len(st_lines) == self.num_students', 'forall(i, 0, self.num_students, line_ok(st_lines[i], i, _k))']),
+           1: dict(invariant=['len(st_lines) == self.num_students', 'forall(i, 0, _k, final_ok(st_lines[i], i))',
+                              'forall(i, _k, self.num_students, line_ok(st_lines[i], i, len(pair_assignments)))'])},
+    returns=('joinstr', '', 'strline'),
+    ensures=[('one-line-per-student-in-student-order', 'len(joined(result)) == self.num_students'),
+             ('each-line-shows-the-students-matched-pair-or-no-assignment', 'forall(i, 0, self.num_students, final_ok(joined(result)[i], i))')]),
  M + '_get_detailed_project_info': dict(pure_text=True),
  M + '_get_detailed_lecturer_info': dict(pure_text=True),
 
